@@ -54,9 +54,18 @@ Print Assumptions C15_ping_within_p_after_every_multiple.
 Theorem C15_forced_only_when_due : forall cf app c, k_ready c = true ->
   snd (regular cf app c) = SRaise SForce ->
   (exists v, c_ping_timeout cf = Some v /\ v <> 0 /\ session_time c - k_last_pong c > v) \/
-  (exists v s, c_close_timeout cf = Some v /\ v <> 0 /\ s + v <= session_time c).
-Proof. exact regular_force_only_when_due. Qed.
+  (exists v s, c_close_timeout cf = Some v /\ v <> 0 /\ k_sent_close_time (fst (regular cf app c)) = Some s /\ s + v <= session_time c).
+Proof. exact regular_force_only_when_due_strong. Qed.
 Print Assumptions C15_forced_only_when_due.
+(* ... and whenever due: if _regular() lets the loop go on (it neither forces the disconnect nor was the loop abandoned in
+   a handler), no armed deadline has passed at this check instant -- the close timeout counted from the moment the Close
+   frame went out (session time 0 included), the ping timeout from the last Pong *)
+Theorem C15_forced_whenever_due : forall cf app c, k_ready c = true ->
+  snd (regular cf app c) = SOk ->
+  (forall v s, c_close_timeout cf = Some v -> v <> 0 -> k_sent_close_time (fst (regular cf app c)) = Some s -> session_time c < s + v) /\
+  (forall v, c_ping_timeout cf = Some v -> v <> 0 -> session_time c - k_last_pong c <= v).
+Proof. exact regular_ok_means_not_due. Qed.
+Print Assumptions C15_forced_whenever_due.
 Theorem C15_unresponsive_iff : forall T lp t,
   unresponsive T lp t = true <-> exists v, T = Some v /\ v <> 0 /\ t - lp > v.
 Proof. exact unresponsive_iff. Qed.
